@@ -161,7 +161,7 @@ func (c *Ctx) model() *textModel {
 			}
 		}
 	}
-	for what, v := range map[string]string{"offset": m.Offset, "len": m.Len, "data": m.Data, "lines": m.Lines, "reader.file": m.ReaderFile, "reader.cache": m.ReaderCache, "interpreter": m.NTInterp, "schema": m.NTSchema, "children": m.NTChildren} {
+	for what, v := range map[string]string{"offset": m.Offset, "len": m.Len, "data": m.Data, "lines": m.Lines, "reader.file": m.ReaderFile, "interpreter": m.NTInterp, "schema": m.NTSchema, "children": m.NTChildren} {
 		if v == "" {
 			return fail("role " + what + " not discovered")
 		}
